@@ -378,12 +378,19 @@ check("C07", "exploration",
       "operand pair of the two widths as the records of one three-helper run, in the semi-honest DZKP context and (all width pairs in "
       "thorough, half of them in quick) in the proof-carrying malicious context where the proof must also verify; boundary-operand "
       "pairs for 16- and 64-bit words incl. narrower y; multiply over Fp31 on all 961 pairs. Oracle: consistent three-party sharing "
-      "of the right bit length reconstructing to the plaintext function. distinct_nontrivial = operand pairs executed.",
+      "of the right bit length reconstructing to the plaintext function. Remaining blocks: multiply over all 961 pairs of Fp31 and "
+      "a 14-value boundary alphabet of Fp32BitPrime (semi-honest and MAC-validated); Boolean multiply, OR, bit-wise AND/OR of all "
+      "3-bit operand pairs; the multiplexer on all 2x8x8 inputs of BA3 and boundary values of BA5/8/20/64; bucket aggregation of every "
+      "column of <= 3 (4) small values into 3- and 8-bit saturating buckets; share conversion of 257 boundary match keys; the "
+      "pseudonym function on boundary keys incl. equal inputs - each in both execution modes. distinct_nontrivial = operand "
+      "pairs / cases executed.",
       [{"name": "circuits", "config": "A", "test": "verif::c07::run", "workers": {"quick": 4, "thorough": 8},
         "timeout": {"quick": 1200, "thorough": 7200},
-        "require": {"any": {"circuit_runs": 60, "unequal_width_runs": 20, "distinct:circuits": 12}}}],
-      assumptions=["select / or / bool_and_8_bit, share conversion, eval_dy_prf and aggregate_values are exercised through C01-C05 "
-                   "runs (attribution results) rather than enumerated here",
+        "require": {"any": {"circuit_runs": 60, "unequal_width_runs": 20, "distinct:circuits": 12}}},
+       {"name": "blocks", "config": "A", "test": "verif::c07b::run", "timeout": {"quick": 900, "thorough": 3600},
+        "require": {"any": {"distinct:blocks": 24, "cases_multiply-fp31-mac": 961}}}],
+      assumptions=["the pseudonym function is compared with 1/(k+x)*G computed with the library's own Fp25519 / RP25519 arithmetic (C08 covers that arithmetic)",
+                   "vector widths: 1 for the arithmetic circuits, 16 for aggregation, 256/16 for share conversion, the BA width for the multiplexer",
                    "operands wider than 4 (5) bits only on the boundary alphabet"],
       exhaustive=True, engine="E5 domain",
       technique="exhaustive small-domain enumeration of operand pairs and width pairs executed on the real three-helper circuits, "
